@@ -18,7 +18,7 @@ from __future__ import annotations
 
 import ast
 
-from ..model import Program, call_name, norm, expand_locals, inline_private_helpers
+from ..model import Program, call_name, norm, expand_locals, inline_private_helpers, execution_condition, bool_equivalent, single_assignment_locals
 from ..poly import Rat, sqrt_of
 from ..report import AnalysisError
 from ..symexec import SymEnv, opaque_pow
@@ -117,10 +117,22 @@ def rule_r1(rep, program: Program):
         body = reg.body_without_docstring()
         stmts = []
         for st in body:
+            if isinstance(st, ast.If) and st.body and isinstance(st.body[-1], ast.Return) and not st.orelse:
+                continue  # guard clause: the update is the fall-through path
             if isinstance(st, ast.If):
                 stmts += st.body
+            elif isinstance(st, ast.Return) and st.value is None:
+                continue
             else:
                 stmts.append(st)
+        # the update runs exactly when a regularisation offset is configured
+        upd = [st for st in ast.walk(reg.node) if isinstance(st, ast.AugAssign)]
+        if upd:
+            conds = execution_condition(reg.node, upd[0])
+            expected = ast.parse("self.reg_iter_offset is not None and self.reg_iter_offset != 0", mode="eval").body
+            # unconditional application is fine too (with offset 0 the formula is the identity)
+            eq = bool_equivalent(conds, expected) if conds else True
+            _check(r, bool(eq), f"{reg.qualname}:guard", f"the regularisation is applied under {[('' if t else 'not ') + norm(e) for e, t in conds]}, not exactly when reg_iter_offset is set and non-zero", reg.node, reg.file, quantity=f"{cls}.regulariser.guard")
         env = SymEnv({pname: S("v0")})
         alias = {}
         for st in stmts:
@@ -267,6 +279,7 @@ def rule_r2(rep, program: Program):
         if g is None:
             raise AnalysisError(f"adapters.{name} not found")
         ret = [n for n in ast.walk(g.node) if isinstance(n, ast.Return)][0]
+        ret = ast.Return(value=expand_locals(ret.value, single_assignment_locals(g.node)), lineno=ret.lineno)
         r.inst({"reducer": name, "returns": norm(ret.value)})
         if _canon_comprehensions(norm(ret.value)) != _canon_comprehensions(want):
             r.violate(PROP, f"{name}:{norm(ret.value)[:50]}", f"reducer returns `{norm(ret.value)}`; documented: `{want}`", node=ret, file=g.file)
